@@ -4,6 +4,12 @@
 
 #define CNT_MAXN 1000000
 size_t ghost_g;
+/* witnesses for native replay: pre-state of the object under test */
+unsigned w_bytes, w_val_i, w_val_j, w_val_g; size_t w_size, w_c09, w_c17;
+#define CNT_WITNESS(fn, c, i) \
+    WITNESS(fn, w_bytes == (c)->bytes && w_size == (c)->size && w_c09 == (c)->counts_09bit && w_c17 == (c)->counts_17bit) \
+    WITNESS(fn, (i) < (c)->size ==> w_val_i == CNT_VAL(c, i)) \
+    WITNESS(fn, ghost_g < (c)->size ==> w_val_g == CNT_VAL(c, ghost_g))
 
 void array_watcher__expandElementSize(struct array_watcher *w, unsigned oldbits, unsigned newbits)
 __CPROVER_requires(1) __CPROVER_ensures(1) __CPROVER_assigns();
@@ -30,7 +36,7 @@ __CPROVER_requires(1) __CPROVER_ensures(1) __CPROVER_assigns();
     __CPROVER_requires((c)->bytes != 4 ==> (c)->data32 == NULL) \
     __CPROVER_requires((c)->bytes == 1 ==> ((c)->counts_09bit == 0 && (c)->counts_17bit == 0)) \
     __CPROVER_requires((c)->bytes == 2 ==> (c)->counts_17bit == 0) \
-    __CPROVER_requires((c)->counts_09bit <= (c)->size && (c)->counts_17bit <= (c)->size) \
+    __CPROVER_requires((c)->counts_17bit <= (c)->counts_09bit && (c)->counts_09bit <= (c)->size) \
     __CPROVER_requires(verif_exc == 0)
 
 #define CNT_ASSIGNS_ALL(c) \
@@ -48,7 +54,7 @@ __CPROVER_requires(1) __CPROVER_ensures(1) __CPROVER_assigns();
     __CPROVER_requires((c)->bytes == W) \
     __CPROVER_requires(__CPROVER_is_fresh((c)->arr, (c)->size * W)) \
     __CPROVER_requires((c)->other1 == NULL && (c)->other2 == NULL) \
-    __CPROVER_requires((c)->counts_09bit <= (c)->size && (c)->counts_17bit <= (c)->size) \
+    __CPROVER_requires((c)->counts_17bit <= (c)->counts_09bit && (c)->counts_09bit <= (c)->size) \
     __CPROVER_requires(verif_exc == 0)
 #define CNT_FRAME_W(c, from, to) \
     __CPROVER_assigns(verif_exc, (c)->from, (c)->to, (c)->counts_09bit, (c)->counts_17bit, (c)->bytes) \
@@ -63,6 +69,7 @@ __CPROVER_requires(1) __CPROVER_ensures(1) __CPROVER_assigns();
 
 void counter_array__expand8to16(struct counter_array *self, size_t j)
 CNT_REQ_W(self, 1, data8, data16, data32)
+CNT_WITNESS(counter_array__expand8to16, self, j)
 __CPROVER_requires(self->counts_09bit == 0 && self->counts_17bit == 0)
 __CPROVER_requires(j < self->size)
 __CPROVER_requires(ghost_g < self->size)
@@ -77,6 +84,7 @@ ENSURES(counts, verif_exc != 0 || (self->counts_09bit == 1 && self->counts_17bit
 
 void counter_array__expand16to32(struct counter_array *self, size_t j)
 CNT_REQ_W(self, 2, data16, data8, data32)
+CNT_WITNESS(counter_array__expand16to32, self, j)
 __CPROVER_requires(self->counts_17bit == 0)
 __CPROVER_requires(j < self->size)
 __CPROVER_requires(ghost_g < self->size)
@@ -92,6 +100,7 @@ ENSURES(counts, verif_exc != 0 || (self->counts_09bit == __CPROVER_old(self->cou
 /* narrowing: callers must establish "everything fits" (consequence of counts_09bit==0 under INV) */
 void counter_array__shrink16to8(struct counter_array *self, size_t ns)
 CNT_REQ_W(self, 2, data16, data8, data32)
+CNT_WITNESS(counter_array__shrink16to8, self, ghost_g)
 __CPROVER_requires(self->counts_09bit == 0 && self->counts_17bit == 0)
 __CPROVER_requires(1 <= ns && ns <= CNT_MAXN)
 __CPROVER_requires((ghost_g < self->size && ghost_g < ns) ==> self->data16[ghost_g] < 256)                /* INV, instantiated at the ghost element */
@@ -105,6 +114,7 @@ ENSURES(size_unchanged, self->size == __CPROVER_old(self->size))
 
 void counter_array__shrink32to16(struct counter_array *self, size_t ns)
 CNT_REQ_W(self, 4, data32, data8, data16)
+CNT_WITNESS(counter_array__shrink32to16, self, ghost_g)
 __CPROVER_requires(self->counts_17bit == 0)
 __CPROVER_requires(1 <= ns && ns <= CNT_MAXN)
 __CPROVER_requires((ghost_g < self->size && ghost_g < ns) ==> self->data32[ghost_g] < 65536)
@@ -119,6 +129,7 @@ ENSURES(size_unchanged, self->size == __CPROVER_old(self->size))
 
 void counter_array__shrink32to8(struct counter_array *self, size_t ns)
 CNT_REQ_W(self, 4, data32, data8, data16)
+CNT_WITNESS(counter_array__shrink32to8, self, ghost_g)
 __CPROVER_requires(self->counts_09bit == 0 && self->counts_17bit == 0)
 __CPROVER_requires(1 <= ns && ns <= CNT_MAXN)
 __CPROVER_requires((ghost_g < self->size && ghost_g < ns) ==> self->data32[ghost_g] < 256)
@@ -134,6 +145,7 @@ ENSURES(size_unchanged, self->size == __CPROVER_old(self->size))
 
 unsigned int counter_array__get(const struct counter_array *self, size_t i)
 CNT_REQUIRES_WF(self)
+CNT_WITNESS(counter_array__get, self, i)
 __CPROVER_requires(i < self->size)
 __CPROVER_assigns()
 ENSURES(reads_current_width, __CPROVER_return_value == CNT_VAL(self, i))
@@ -141,6 +153,7 @@ ENSURES(reads_current_width, __CPROVER_return_value == CNT_VAL(self, i))
 
 void counter_array__increment(struct counter_array *self, size_t i)
 CNT_REQUIRES_WF(self)
+CNT_WITNESS(counter_array__increment, self, i)
 __CPROVER_requires(i < self->size && ghost_g < self->size)
 __CPROVER_requires(CNT_VAL(self, i) < 0xffffffffu)               /* a 32-bit count cannot go higher */
 CNT_ASSIGNS_ALL(self)
@@ -156,6 +169,7 @@ ENSURES(size_unchanged, self->size == __CPROVER_old(self->size))
 
 void counter_array__decrement(struct counter_array *self, size_t i)
 CNT_REQUIRES_WF(self)
+CNT_WITNESS(counter_array__decrement, self, i)
 __CPROVER_requires(i < self->size && ghost_g < self->size)
 __CPROVER_requires(CNT_VAL(self, i) >= 1)                        /* MEDDLY_DCASSERT(dataN[i]) */
 __CPROVER_requires(CNT_VAL(self, i) >= 256 ==> self->counts_09bit >= 1)   /* INV at i */
@@ -172,6 +186,7 @@ ENSURES(size_unchanged, self->size == __CPROVER_old(self->size))
 
 _Bool counter_array__isZeroBeforeIncrement(struct counter_array *self, size_t i)
 CNT_REQUIRES_WF(self)
+CNT_WITNESS(counter_array__isZeroBeforeIncrement, self, i)
 __CPROVER_requires(i < self->size && ghost_g < self->size)
 __CPROVER_requires(CNT_VAL(self, i) < 0xffffffffu)
 CNT_ASSIGNS_ALL(self)
@@ -187,6 +202,7 @@ ENSURES(size_unchanged, self->size == __CPROVER_old(self->size))
 
 _Bool counter_array__isPositiveAfterDecrement(struct counter_array *self, size_t i)
 CNT_REQUIRES_WF(self)
+CNT_WITNESS(counter_array__isPositiveAfterDecrement, self, i)
 __CPROVER_requires(i < self->size && ghost_g < self->size)
 __CPROVER_requires(CNT_VAL(self, i) >= 1)
 __CPROVER_requires(CNT_VAL(self, i) >= 256 ==> self->counts_09bit >= 1)
@@ -204,6 +220,8 @@ ENSURES(size_unchanged, self->size == __CPROVER_old(self->size))
 
 void counter_array__swap(struct counter_array *self, size_t i, size_t j)
 CNT_REQUIRES_WF(self)
+CNT_WITNESS(counter_array__swap, self, i)
+WITNESS(counter_array__swap, j < self->size ==> w_val_j == CNT_VAL(self, j))
 __CPROVER_requires(i < self->size && j < self->size && ghost_g < self->size)
 CNT_ASSIGNS_ALL(self)
 ENSURES(no_error, verif_exc == 0)
@@ -218,6 +236,7 @@ ENSURES(counts_unchanged, self->counts_09bit == __CPROVER_old(self->counts_09bit
 
 void counter_array__expand(struct counter_array *self, size_t ns)
 CNT_REQUIRES_WF(self)
+CNT_WITNESS(counter_array__expand, self, ghost_g)
 __CPROVER_requires(ns <= CNT_MAXN)
 __CPROVER_requires(ghost_g < ns)
 /* INV instantiated at the ghost element (needed only on the narrowing paths) */
@@ -236,6 +255,7 @@ ENSURES(counts_unchanged, verif_exc != 0 || (self->counts_09bit == __CPROVER_old
 
 void counter_array__shrink(struct counter_array *self, size_t ns)
 CNT_REQUIRES_WF(self)
+CNT_WITNESS(counter_array__shrink, self, ghost_g)
 __CPROVER_requires(1 <= ns && ns <= CNT_MAXN)
 __CPROVER_requires(ghost_g < ns)
 __CPROVER_requires(ghost_g < self->size ==> (self->counts_09bit == 0 ==> CNT_VAL(self, ghost_g) < 256))
